@@ -94,8 +94,9 @@ def dump_problem(p):
                   for k, v in p.initial_state_predicates.items()],
         "fluents": [[ws(k), "%s #%s" % (ws(v.state_representation), float(v.value).hex())]
                     for k, v in p.initial_state_fluents.items()],
-        "goals": [ws(str(g)) for g in p.goal_state_predicates],
-        "ngoals": [ngoal_text(g) for g in p.goal_state_fluents],
+        # goal literals and numeric goals are sets (iterated in hash order): listed in text order, repetitions kept
+        "goals": sorted(ws(str(g)) for g in p.goal_state_predicates),
+        "ngoals": sorted(ngoal_text(g) for g in p.goal_state_fluents),
     }
 
 
@@ -245,9 +246,10 @@ def combine(job):
                 res["drt_same"] = canon_domain(drt["ok"]) == canon_domain(res["dobs"]["ok"])
     # ---- the same with the other setting of add_dummy_actions
     (cdir / "out2").mkdir()
-    with forced_glob(job.get("dorder")):
-        res["dobs2"] = attempt(lambda: dump_domain(conv.locate_domains(add_dummy_actions=not job["dummy"])))
-    if "ok" in res["dobs2"]:
+    if job.get("alt"):
+        with forced_glob(job.get("dorder")):
+            res["dobs2"] = attempt(lambda: dump_domain(conv.locate_domains(add_dummy_actions=not job["dummy"])))
+    if "ok" in res.get("dobs2", {}):
         _, res["dexport2"], drt2 = export_reparse(not job["dummy"], cdir / "out2", False)
         if drt2 is not None:
             res["drt2"] = drt2
